@@ -510,7 +510,15 @@ def rule_faithful(R):
          "handler returned Ok(true)", where=pb.span)
 
 
+def rule_surfaced(R):
+    """a PUBLISH that was taken out of the reader (and acknowledged / recorded as pending) is handed to the application
+    before anything can interrupt the call: no await point between taking it and reporting it (shared with C13)"""
+    from .c13 import clause_deliver_before_await
+    clause_deliver_before_await(R, "surfaced")
+
+
 def run(R):
+    R.rule("surfaced", rule_surfaced)
     R.rule("ack", rule_ack)
     R.rule("once", rule_once)
     R.rule("rel", rule_rel)
